@@ -248,6 +248,18 @@ Record chan_fact := mkChan { c_type : string; c_field : string; c_kind : ckind; 
 Record go_fact := mkGo { g_spawner : string; g_body : string; g_pos : string }.
 Record unknown_fact := mkUnk { u_func : string; u_what : string; u_text : string }.
 
+(* calls of interest (harness/cmd/vskel callsOfInterest), sync-method calls on fields of
+   listed types ("T.f.Method"), channel operations on such fields ("close(T.f)", "send(T.f)",
+   "recv(T.f)") and uses of a function of interest as a value *)
+Inductive chow := HCall | HGo | HDefer | HValue.
+Record call_fact := mkCall {
+  k_caller : string; k_callee : string; k_how : chow;
+  k_locks : list (string * lmode);     (* must-hold lockset at the call *)
+  k_written : list string;             (* fields "T.f" written earlier in the caller on every path *)
+  k_in_go : bool;                      (* the caller is (inside) the operand of a go statement *)
+  k_pos : string
+}.
+
 Definition str_in (s : string) (l : list string) : bool := existsb (String.eqb s) l.
 Definition pair_eqb (a b : string * string) : bool :=
   (String.eqb (fst a) (fst b) && String.eqb (snd a) (snd b))%bool.
